@@ -10,4 +10,7 @@ func init() {
 	reg.Register("c16.ber.der", "C16", derFixedPoint)
 	reg.Register("c16.ber.variants", "C16", berVariants)
 	reg.Register("c16.sha1", "C16", sha1Chains)
+	reg.Register("c16.history.signed", "C16", signedHistory)
+	reg.Register("c16.history.env", "C16", envHistory)
+	reg.Register("c16.history.builder", "C16", builderHistory)
 }
